@@ -73,8 +73,9 @@ class Spec(PropSpec):
     pid = "C07"
     subsys = "Fs"
     props_file = "C07.v"
-    theorems = ["c07_crash_image", "c07_torn", "c07_synced_never_lost", "c07_unsynced_entry_gone", "c07_no_unwritten_bytes", "c07_random_sync",
-                "c07_rename_file_refuted", "c07_recreate_refuted", "c07_kind_swap_refuted", "c07_nonvacuous", "c07_torn_nonvacuous"]
+    theorems = ["c07_crash_image_partial", "c07_torn", "c07_synced_never_lost", "c07_unsynced_entry_gone", "c07_no_unwritten_bytes", "c07_random_sync",
+                "c07_rename_file_refuted", "c07_rename_cross_src_first_refuted", "c07_rename_cross_clean_example",
+                "c07_recreate_refuted", "c07_kind_swap_refuted", "c07_nonvacuous", "c07_torn_nonvacuous"]
     coq_targets = ["C07.vo"]
     consts = FS_CONSTS
     anchors = FS_ANCHORS + [("crates/turmoil/src/sim.rs", "crash")]
@@ -91,8 +92,9 @@ class Spec(PropSpec):
         "expectations are asserted for entries all of whose ancestors are durable; once a crash meets a dangling durable subtree nothing more is asserted for that host",
         "symlinks, hard links, permissions, timestamps are outside the property; io_uring fsync is covered by C18",
     ]
-    partial_note = ("c07_crash_image is proved for every block size, coin and draw sequence, for the alphabet without "
-                    "create_dir_all / remove_dir_all (these two are covered by the FsDurable model, the "
+    partial_note = ("c07_crash_image_partial is proved for every block size, coin and draw sequence, for the alphabet without "
+                    "create_dir_all / remove_dir_all and without successful renames of regular files (the oracle asserts the "
+                    "renames of data-synced files outside the narrow classes RenameFile / RenameCrossDir; the rest is covered by the model, the "
                     "correspondence and the oracle only); it holds outside the known classes RenameFile, RenameSelf, RenameDir, StaleHandle, Recreate, "
                     "KindSwap, RootOp")
 
@@ -159,14 +161,14 @@ class Spec(PropSpec):
         py = sorted(KLASS_IDS[k] for k in feats_all if k in KLASS_IDS)
         if not any(dur_flags) and py != sorted(set(klasses)):
             return "known-class predicates disagree: python %s, FsDurable.v %s" % (py, sorted(set(klasses)))
-        # the side condition of c07_crash_image (one host): alphabet, no known class, no KindSwap,
+        # the side condition of c07_crash_image_partial (one host): alphabet, no known class, no KindSwap,
         # no crash on a dangling durable subtree -- must be what the generators call "safe"
         if case["cfg"].get("nhosts", 1) == 1:
             feats = feats_all
             alphabet = not any(st[0].split("@")[0] in ("mkdir_all", "rmdir_all") for st in case["steps"])
             py_safe = alphabet and not (feats & set(F.THEOREM_EXCLUDED)) and not any(dur_flags)
             if py_safe != bool(coq_safe):
-                return "side condition of c07_crash_image: python says %s, dsafe (Coq) says %s (features %s)" % (
+                return "side condition of c07_crash_image_partial: python says %s, dsafe (Coq) says %s (features %s)" % (
                     py_safe, bool(coq_safe), sorted(feats))
         if "RenameFileAny" in feats_all:
             # the python durable model adds the rule "a rename becomes durable with the new name" (a file has
